@@ -54,3 +54,30 @@ contract(M, 'PDAState.__eq__', {'self': 'PDAState', 'other': 'PDAState'}, return
          ensures=['result == (self.q == other.q and self.stack == other.stack)'], theories=[], props=['C09', 'C15'])
 contract(M, 'PDAState.__init__', {'self': 'PDAState', 'q': 'State', 'stack': 'Word'}, returns='None', modifies=['self'],
          ensures=['self.q == q', 'self.stack == stack'], theories=[], props=['C09', 'C15'])
+
+# ---------------------------------------------------------------------------------------------- C10: normal forms (in place)
+_TR = 'lookup(%s, (p, a, u))'
+contract(M, 'pda_to_one_accepting_state_in_place', {'P': 'PDA'}, returns='None', modifies=['P'],
+         requires=['pda_cfg_ok(P)', 'P.epsilon not in P.Sigma'],
+         ensures=['P.Sigma == old(P.Sigma)', 'P.Gamma == old(P.Gamma)', 'P.q0 == old(P.q0)', 'P.epsilon == old(P.epsilon)',
+                  'implies(card(old(P.F)) == 1, P.Q == old(P.Q) and P.F == old(P.F) and P.delta == old(P.delta))',
+                  # otherwise: one new state, reached by a stack-neutral epsilon move from every old accepting state, is the only accepting state
+                  'implies(card(old(P.F)) != 1, any(qa not in old(P.Q) and P.Q == old(P.Q) | {qa} and P.F == {qa} and '
+                  'all((t in lookup(P.delta, (p, a, u))) == (t in lookup(old(P.delta), (p, a, u)) or (p in old(P.F) and a == P.epsilon and u == P.epsilon and t == (qa, P.epsilon))) '
+                  'for p in atoms() for a in atoms() for u in atoms() for t in pairs()) for qa in atoms()))',
+                  # the property itself, over words: the language is unchanged
+                  'all(implies(over(P.Sigma, w), pda_accepts(P, w) == pda_accepts(old(P), w)) for w in allwords())'],
+         pre_return_asserts={'end': ['pda_cfg_ok(old(P))', 'q_accept not in old(P.Q)', 'P.q0 == old(P.q0) and P.epsilon == old(P.epsilon)', 'all((q in P.F) == (q == q_accept) for q in atoms())',
+                                     'all((t in lookup(P.delta, (p, a, u))) == (t in lookup(old(P.delta), (p, a, u)) or (p in old(P.F) and a == P.epsilon and u == P.epsilon and t == (q_accept, P.epsilon))) '
+                                     'for p in atoms() for a in atoms() for u in atoms() for t in pairs())',
+                                     'one_acc_struct(old(P), P, q_accept)']},
+         asserts=['implies(card(old(P.F)) != 1, any(one_acc_struct(old(P), P, qa) for qa in atoms()))',
+                  # the property itself, over words: the language is unchanged (lemmas one-acc-eclo / one-acc-sim / one-acc-lang)
+                  'all(implies(over(P.Sigma, w), pda_accepts(P, w) == pda_accepts(old(P), w)) for w in allwords())'],
+         loops={1: {'ghost': 'doneF', 'invariant': [
+             'P.Sigma == old(P.Sigma)', 'P.Gamma == old(P.Gamma)', 'P.q0 == old(P.q0)', 'P.epsilon == old(P.epsilon)',
+             'q_accept not in old(P.Q)', 'P.Q == old(P.Q) | {q_accept}', 'P.F == old(P.F)', 'epsilon == P.epsilon',
+             'all((t in lookup(P.delta, (p, a, u))) == (t in lookup(old(P.delta), (p, a, u)) or (p in doneF and a == epsilon and u == epsilon and t == (q_accept, epsilon))) '
+             'for p in atoms() for a in atoms() for u in atoms() for t in pairs())']}},
+         theories=['naming', 'word', 'pda', 'pdax'], props=['C10'],
+         note='exact structure of the in-place construction; the language statement (asserts) follows by lemmas one-acc-eclo / one-acc-sim / one-acc-lang: configurations of the new automaton are those of the old one plus (q_accept, s) for every reachable accepting (q, s)')
